@@ -225,8 +225,8 @@ def install(path):
                         if m == 0:
                             ev["zero"] = True
                             ev["sign"] = (r == 0)
-                        elif r == 0 or r != r or abs(r) == float("inf"):
-                            pass        # the result under- or overflowed (or the source was not finite): rounding, not judged
+                        elif isinstance(r, float) and (r == 0 or r != r or abs(r) == float("inf")):
+                            pass        # a float result under- or overflowed (or the source was not finite): rounding, not judged
                         else:
                             ev["sign"] = (r > 0) == (m > 0)
                             lm, lr = _ln(abs(m)), _ln(abs(r))
@@ -311,10 +311,22 @@ def install(path):
                 out = _exc_name(ex, conversions)
                 raise
             finally:
+                rev, hq = None, None
+                if top and isinstance(other, Quantity) and type(other) is type(self):
+                    # the same question the other way round, and the two hashes (still inside the recorded call: not recorded)
+                    try:
+                        r2 = orig(other, self)
+                        rev = "NI" if r2 is NotImplemented else ("T" if r2 else "F")
+                    except BaseException as ex2:
+                        rev = _exc_name(ex2, conversions)
+                    try:
+                        hq = "T" if hash(self) == hash(other) else "F"
+                    except BaseException:
+                        hq = "NA"
                 _leave()
                 if top and isinstance(other, Quantity):
                     try:
-                        _emit({"e": "cmp", "op": op, "l": _Q(self), "r": _Q(other), "out": out})
+                        _emit({"e": "cmp", "op": op, "l": _Q(self), "r": _Q(other), "out": out, "rev": rev, "hq": hq})
                     except Exception as ex:
                         _emit({"e": "note", "what": "cmp-unrecorded:%s" % type(ex).__name__})
         f.__name__ = name
